@@ -259,16 +259,17 @@ theorem good_defineLocal (name : String) : Good (defineLocal name) := by
   good
   exact good_modHead fun t ht => by simpa using putSym_ok (by intro hc; simp at hc) ht
 
-theorem good_setParamsLoop (pos : Pos) : ∀ ps : List String, Good (setParamsLoop pos ps)
-  | [] => by unfold setParamsLoop; good
-  | p :: r => by
-    have := good_setParamsLoop pos r
+theorem good_setParamsLoop (pos : Pos) : ∀ (ps : List String) (k : Nat), Good (setParamsLoop pos ps k)
+  | [], _ => by unfold setParamsLoop; good
+  | p :: r, k => by
+    have := good_setParamsLoop pos r (k + 1)
+    have hk : Good (modHead fun t => { t with numParams := k }) := good_modHead fun t ht => ht
     unfold setParamsLoop
     good
     exact good_modHead fun t ht => by simpa using putSym_ok (by intro hc; simp at hc) ht
 
 theorem good_setParams (pos : Pos) (ps : List String) : Good (setParams pos ps) := by
-  have := good_setParamsLoop pos ps
+  have := good_setParamsLoop pos ps 0
   unfold setParams
   good
   exact good_modHead fun t ht => ht
